@@ -12,7 +12,7 @@ import (
 type streamGen struct {
 	t       *Tape
 	nextID  int
-	profile int // 0 numbers, 1 scalars, 2 objects, 3 mixed
+	profile int  // 0 numbers, 1 scalars, 2 objects, 3 mixed
 	rich    bool // object roots carry items/a/b members (for selectors)
 }
 
